@@ -46,7 +46,7 @@ META = {
                     "attributes of a slicer are only stored inside the class body"],
     "technique": "CFG reaching definitions + alias classification; def-use table agreement between __init__, copy, transpose and the dunders",
 }
-MIN_INSTANCES = {"R1": 7, "R2": 13, "R3": 5, "R4": 10, "R5": 5, "R6": 6}
+MIN_INSTANCES = {"R1": 7, "R2": 13, "R3": 5, "R4": 10, "R5": 5, "R6": 6, "R7": 6}
 
 
 # ----------------------------------------------------------------------------------------
@@ -320,6 +320,31 @@ def _ctor_args(call: ast.Call, init: ast.FunctionDef) -> dict[str, ast.expr]:
 
 # ----------------------------------------------------------------------------------------
 
+def _r7_pending_slot(ctx: Ctx, mod, meths, pend) -> None:
+    """R7 (added by the coordinator): the pending operand/operation is a single slot.  A method that stores a new
+    pending operand on a copy of a slicer must either refuse / compose when the copied slicer already carries a
+    pending operation (the source's pending attribute is read in a guard or in the stored value), or the earlier
+    pending operation is silently dropped: `2.0 * (3.0 * S) @ y` then equals `2.0 * (S @ y)`."""
+    operand_attr = pend[0]
+    n = 0
+    for name, fn in meths.items():
+        stores_ = [st for st in stmts_local(fn) if isinstance(st, ast.Assign) and any(
+            isinstance(t, ast.Attribute) and t.attr == operand_attr for t in st.targets)]
+        if name in ("__init__", "copy") or not stores_:
+            continue
+        for st in stores_:
+            n += 1
+            reads = [nd for nd in walk_local(fn) if isinstance(nd, ast.Attribute) and nd.attr == operand_attr and isinstance(nd.ctx, ast.Load)]
+            # reads inside the evaluation site (`if self._pending_operand is not None: eval(...)`) do not guard the store
+            guarding = [r for r in reads if r.lineno <= st.lineno]
+            ctx.check("R7", bool(guarding), mod, f"{CLS}.{name}", st,
+                      f"{name} stores a new pending operand on a copy without looking at a pending operation the copied slicer may already "
+                      f"carry: the earlier operation is dropped (e.g. 2.0 * (3.0 * S) @ y gives 2.0 * (S @ y); S0 @ (5.0 * S) @ y loses the 5.0)",
+                      construct=f"{CLS}.{name}: pending slot overwritten")
+    if n < 6:
+        raise AnchorError(f"{CLS}: expected at least 6 methods storing a pending operand, found {n}")
+
+
 def run(ctx: Ctx) -> None:
     mod = ctx.repo.module(MATOPS)
     cls = mod.cls(CLS)
@@ -343,6 +368,7 @@ def run(ctx: Ctx) -> None:
     _r4_reflected(ctx, mod, meths, pend)
     _r5_transpose(ctx, mod, meths, stores, ctor_params, deps)
     _r6_kernels(ctx, mod, meths, stores, deps)
+    _r7_pending_slot(ctx, mod, meths, pend)
     if ctx.tier == "thorough":
         _sweep(ctx)
         _notes(ctx, meths, pend)
